@@ -7,7 +7,13 @@ USES_TRANSLATOR = True
 LEAN_TARGETS = ["H5V.Props.C15"]
 AUDIT_IMPORTS = ["H5V.Props.C15"]
 THEOREMS = ["H5V.Props.C15." + t for t in [
-    "xmlTokSets_match", "C15_sets_cover",
+    "xmlTokSets_match", "C15_sets_cover", "C15_fast_eq_slow",
+    "C15_step_mono", "C15_step_resume", "C15_step_good", "C15_step_sim",
+    "C15_chunking", "C15_chunking_tokens", "C15_feedAll", "C15_finish_sim", "C15_bom_once",
+    "run_done_runsTo", "runsTo_run_done", "feedAll_session", "good_initial",
+]] + ["H5V.Model.XmlTok." + t for t in [
+    "step_mono", "step_resume", "step_good", "step_sim", "runsTo_chunk", "session_flatten", "step_discardBom",
+    "setOf_cover", "transSet_dead",
 ]]
 TRUSTED = [
     "Lean 4 kernel; axioms ⊆ {propext, Classical.choice, Quot.sound} (audited per run)",
@@ -28,8 +34,10 @@ RULE = ("families: state-cover (every XmlState × character class (+EOF) × suff
         "all singletons / random partitions (chunk independence, tokens and tree), exact_errors on (equality modulo error "
         "tokens), CR and CRLF spellings of every LF (equal to the LF spelling), NUL→U+FFFD twin, U+FEFF with discard_bom "
         "on/off. non-trivial = more than EOF was emitted; distinct = distinct (case, output)")
-EXPLANATION = ("model = code on exhaustive single-transition covers; chunk/option independence and CR/NUL/BOM uniformity "
-               "checked code-vs-code on tokens and trees; side condition on the fast-path sets proved by decide")
+EXPLANATION = ("theorems: chunk independence of feed/end for all strings and all chunkings (C15_chunking, C15_finish_sim), BOM "
+               "once, fast path = slow path under the proved side condition on the sets; model = code on exhaustive "
+               "single-transition covers; exact_errors independence, CR/NUL uniformity and the tree level are checked "
+               "code-vs-code")
 
 IDS = ["Public", "System"]
 AVK = ["Unquoted", "SingleQuoted", "DoubleQuoted"]
